@@ -118,6 +118,9 @@ func (w *World) setup() {
 			w.byz[i] = &Byz{idx: i, realShares: map[int][]byte{}}
 			if w.isDealer(i) {
 				w.makeShadow(w.byz[i], seeds.Bytes(32))
+				if c.Bool(1, 8, "truncattack") {
+					w.makeTruncated(w.byz[i], seeds.Bytes(32), 1+c.Choose(w.t, "trunc.k"))
+				}
 			}
 		}
 		if err := w.newInstance(nd); err != nil {
